@@ -122,7 +122,19 @@ func runSeq(cfg conc.PoolCfg, seq []opT) (string, int) {
 			var holder *blockchain.Transaction
 			if o.Kind == "add" {
 				in := o.tx()
+				// when the pool is full the capacity rule comes first: it may evict the holder (unprocessable transactions go
+				// first, whatever their fee) before the newcomer is added as a fresh transaction; that is eviction, not a
+				// replacement, and the replacement clause does not apply
+				held := 0
 				for _, k := range known {
+					if _, ok := p.Get(k.ID); ok {
+						held++
+					}
+				}
+				for _, k := range known {
+					if held >= cfg.Max {
+						break
+					}
 					if bytes.Equal(k.SenderPublicKey, in.SenderPublicKey) && k.Nonce == in.Nonce && !bytes.Equal(k.ID, in.ID) {
 						if _, ok := p.Get(k.ID); ok {
 							holder = k
